@@ -433,10 +433,32 @@ Proof.
   destruct (iq_short q); [simpl; auto|].
   destruct (next_fail fs2) as [fcl fs3]. destruct fcl.
   { simpl. rewrite sfilter_app. simpl. rewrite app_nil_r. auto. }
-  match goal with |- context [run_compaction ?S ?F ?R] =>
-    pose proof (run_compaction_spec S F R) as Hc; destruct (run_compaction S F R) as [[s7 trc] fs4] end.
-  destruct Hc as (C1 & C2 & C3). simpl.
-  rewrite sfilter_app. simpl. rewrite C3, app_nil_r. auto.
+  destruct (p_monotonic P).
+  - match goal with |- context [remove_old ?A ?B] => destruct (remove_old A B) as [[lo hi]|] end.
+    + match goal with |- context [do_delete ?S ?F lo hi] =>
+        pose proof (do_delete_spec S F lo hi) as (D1 & D2); destruct (do_delete S F lo hi) as [[s7 ok] fs4] end.
+      simpl in D1, D2. simpl. rewrite sfilter_app. simpl. rewrite app_nil_r.
+      split; [reflexivity|]. destruct ok; simpl; split; assumption.
+    + simpl. rewrite sfilter_app. simpl. rewrite app_nil_r. auto.
+  - match goal with |- context [if ?B then _ else (?S6, [], fs3)] =>
+      assert (Ht : let '(s6', trt, _) := (if B then
+                      let '(s', ok, fs') := do_delete S6 fs3 (iq_lastIdx q) (v_lastLogIdx S6) in
+                      (if ok then set_lastlog s' 0 0 else s', [EDelete (iq_lastIdx q) (v_lastLogIdx S6) ok], fs')
+                    else (S6, [], fs3)) in
+                  dproj s6' = dproj s2 /\ v_term s6' = v_term s2 /\ sfilter trt = []);
+      [ destruct B; [|simpl; auto];
+        pose proof (do_delete_spec S6 fs3 (iq_lastIdx q) (v_lastLogIdx S6)) as (D1 & D2);
+        destruct (do_delete S6 fs3 (iq_lastIdx q) (v_lastLogIdx S6)) as [[s' ok] fs']; simpl in D1, D2;
+        destruct ok; simpl; auto
+      | destruct (if B then _ else (S6, [], fs3)) as [[s6' trt] fs3'] ]
+    end.
+    destruct Ht as (T1 & T2 & T3).
+    match goal with |- context [run_compaction ?S ?F ?R] =>
+      pose proof (run_compaction_spec S F R) as Hc; destruct (run_compaction S F R) as [[s7 trc] fs4] end.
+    destruct Hc as (C1 & C2 & C3). simpl.
+    rewrite sfilter_app. cbn [sfilter List.filter is_stable_ev]. fold (sfilter (trt ++ trc)).
+    rewrite sfilter_app, T3, C3. simpl. rewrite app_nil_r.
+    split; [reflexivity|]. split; congruence.
 Qed.
 
 (* ---------------------------------------------------------------- term-only events *)
@@ -626,11 +648,12 @@ Proof.
     - inversion E3; subst. auto.
     - destruct (list_snaps _); [|discriminate]. inversion E3; subst. auto. }
   destruct Hs3 as [Hd3 Hv3].
-  destruct (rec_committed P s3) as [[[s4 tr4]|]|] eqn:E4; try discriminate.
+  destruct (rec_committed P s3) as [| | |s4 tr4] eqn:E4; try discriminate.
   assert (Hs4 : dproj s4 = dproj img /\ v_term s4 = d_term img).
   { unfold rec_committed in E4. destruct (p_rc P).
     - destruct (negb (p_track P)); [discriminate|].
       match type of E4 with context [process_logs ?S ?I] => destruct (process_logs S I) as [[s4' tr4']|] eqn:EP end; [|discriminate].
+      match type of E4 with context [if ?B then _ else _] => destruct B end; [discriminate|].
       inversion E4; subst. apply process_logs_spec in EP. destruct EP as (G1 & G2 & _).
       rewrite G1, G2. simpl. auto.
     - inversion E4; subst. auto. }
@@ -642,9 +665,10 @@ Qed.
 Lemma boot_spec P img r out : wfd img -> boot P img = (r, out) ->
   wfr r /\ dproj (image r) = dproj img.
 Proof.
-  intros Hwf. unfold boot. destruct (recover P img) as [s tr| |] eqn:E; intros H; inversion H; subst; simpl.
+  intros Hwf. unfold boot. destruct (recover P img) as [s tr| | |] eqn:E; intros H; inversion H; subst; simpl.
   - apply recover_spec in E. destruct E as [E1 E2]. split; [|exact E1].
     unfold wfu, wfd in *. unfold dproj in E1. inversion E1. rewrite E2. lia.
+  - auto.
   - auto.
   - auto.
 Qed.
